@@ -68,6 +68,10 @@ def main(tier):
         run.assumptions += ["the statement is one-directional: which framings of a valid AP-REQ are served is only a vacuity guard",
                             "Verify methods are called directly only for tokens without an AP-REQ (settings are unexported; AcceptSecContext is the API that supplies them)",
                             "a byte mutation outside the two ciphertexts leaves the outcome open, but a served identity must be the sealed one"]
+        # the library's other way of authenticating an HTTP request: basic authentication checked against the KDC (BasicAuth.tla;
+        # a mechanism none of the listed properties names: recorded, never a verdict)
+        import sysk5
+        run.extra["system_spec_basicauth"] = sysk5.run_basicauth(run)
     finally:
         shutil.rmtree(wd, ignore_errors=True)
     run.finish(exhaustive=run.thorough)
